@@ -73,11 +73,73 @@ func loadedFieldName(v ssa.Value) string {
 		return n
 	}
 	if f, ok := v.(*ssa.Field); ok {
-		if st, ok := f.X.Type().Underlying().(*types.Struct); ok {
-			return st.Field(f.Field).Name()
+		if n := fieldNameV(f); n != "?" {
+			return n[strings.LastIndex(n, ".")+1:]
 		}
 	}
 	return ""
+}
+
+// muSite: a place in f where a per-resource mutex (a result of get) is locked or
+// released - directly, or by a private helper the mutex is handed to.
+type muSite struct {
+	ci     *CallInfo // the call in f
+	get    *ssa.Call // get(name)
+	helper *ssa.Function
+	ops    []*CallInfo // the sync operations (in f, or in the helper on its parameter)
+	rowArg ssa.Value   // helper form: the row handed to (or receiving) the helper, if any
+}
+
+func mutexSites(f, getF *ssa.Function) []muSite {
+	var out []muSite
+	for _, ci := range Calls(f) {
+		if ci.Kind != "call" || ci.Static == nil {
+			continue
+		}
+		if op := syncOp(ci); op != nil {
+			if call, ok := resolve(ci.Recv()).(*ssa.Call); ok && call.Call.StaticCallee() == getF {
+				out = append(out, muSite{ci: ci, get: call, ops: []*CallInfo{ci}})
+			}
+			continue
+		}
+		h := ci.Static
+		if h == getF || h.Pkg != f.Pkg || h.Blocks == nil {
+			continue
+		}
+		for i, a := range ci.Common.Args {
+			call, ok := resolve(a).(*ssa.Call)
+			if !ok || call.Call.StaticCallee() != getF || i >= len(h.Params) {
+				continue
+			}
+			p := h.Params[i]
+			var ops []*CallInfo
+			for _, hc := range Calls(h) {
+				if op := syncOp(hc); op != nil && hc.Kind == "call" && hc.Recv() == ssa.Value(p) {
+					ops = append(ops, hc)
+				}
+			}
+			if len(ops) == 0 {
+				continue
+			}
+			site := muSite{ci: ci, get: call, helper: h, ops: ops}
+			for j, b := range ci.Common.Args {
+				if j != i && structOf(b.Type()) != nil {
+					site.rowArg = b
+				}
+			}
+			out = append(out, site)
+		}
+	}
+	return out
+}
+
+// sameElement: both values are read from the same slice element.
+func sameElement(a, b ssa.Value) bool {
+	ea, eb := elementSource(a), elementSource(b)
+	if ea == nil || eb == nil {
+		return false
+	}
+	return ea == eb || (ea.X == eb.X && ea.Index == eb.Index) || (keyP(ea.X) == keyP(eb.X) && ea.Index == eb.Index)
 }
 
 func rulesC15(c *Ctx) {
@@ -103,10 +165,63 @@ func rulesC15(c *Ctx) {
 			}
 		}
 	}
-	var acq []*CallInfo
-	for _, ci := range Calls(lockF) {
-		if op := syncOp(ci); op != nil && op.Acquire {
-			acq = append(acq, ci)
+	// the rows may be built and sorted by a private helper that returns them
+	var sortedHere ssa.Value
+	var sortAt ssa.Instruction
+	helperWhy := ""
+	if sortCall == nil {
+		for _, ci := range Calls(lockF) {
+			h := ci.Static
+			if h == nil || h.Pkg != lockF.Pkg || h.Blocks == nil || ci.Kind != "call" || h.Signature.Results().Len() != 1 {
+				continue
+			}
+			if _, isSlice := h.Signature.Results().At(0).Type().Underlying().(*types.Slice); !isSlice {
+				continue
+			}
+			var hs *CallInfo
+			for _, hc := range Calls(h) {
+				if hc.Static != nil && hc.Static.Pkg != nil && hc.Static.Pkg.Pkg.Path() == "sort" {
+					switch hc.Static.Name() {
+					case "SliceStable", "Slice", "Sort", "Stable", "Strings":
+						hs = hc
+					}
+				}
+			}
+			if hs == nil {
+				continue
+			}
+			hsorted := hs.Arg(0)
+			if mi, ok := hsorted.(*ssa.MakeInterface); ok {
+				hsorted = mi.X
+			}
+			for _, r := range returnsOf(h) {
+				rv := resolve(r.Results[0])
+				if !(rv == resolve(hsorted) || keyP(rv) == keyP(hsorted)) {
+					helperWhy = "the helper " + fname(h) + " does not return the slice it sorted"
+				}
+				if !dominates(hs.Instr, r) {
+					helperWhy = "the helper " + fname(h) + " can return without sorting"
+				}
+			}
+			eachInstr(h, func(_ *ssa.BasicBlock, _ int, in ssa.Instruction) {
+				if st, ok := in.(*ssa.Store); ok {
+					if ia := elementAddr(st.Addr); ia != nil && (ia.X == hsorted || keyP(ia.X) == keyP(hsorted)) && reachableFrom(hs.Instr, st) {
+						helperWhy = "the helper " + fname(h) + " writes a row after the sort"
+					}
+				}
+			})
+			sortCall = hs
+			sortedHere = ci.Instr.(ssa.Value)
+			sortAt = ci.Instr
+		}
+	}
+	var acq []muSite
+	for _, site := range mutexSites(lockF, getF) {
+		for _, op := range site.ops {
+			if so := syncOp(op); so != nil && so.Acquire {
+				acq = append(acq, site)
+				break
+			}
 		}
 	}
 	if sortCall == nil {
@@ -121,17 +236,28 @@ func rulesC15(c *Ctx) {
 		if mi, ok := sorted.(*ssa.MakeInterface); ok {
 			sorted = mi.X
 		}
+		if sortedHere != nil {
+			sorted = sortedHere
+			if helperWhy != "" {
+				okR1, why = false, helperWhy
+			}
+		} else {
+			sortAt = sortCall.Instr
+		}
+		// every lock operation on a resource mutex in Lock is one of the recognised sites
+		for _, ci := range Calls(lockF) {
+			if op := syncOp(ci); op != nil && op.Acquire && ci.Kind == "call" {
+				if call, ok := resolve(ci.Recv()).(*ssa.Call); !ok || call.Call.StaticCallee() != getF {
+					okR1, why = false, "the acquired mutex is not the result of get(name)"
+				}
+			}
+		}
 		for _, a := range acq {
-			if !dominates(sortCall.Instr, a.Instr) && !sortSkippedOnlyWhenTrivial(lockF, sortCall, sorted, a.Instr) {
+			if !dominates(sortAt, a.ci.Instr) && (sortedHere != nil || !sortSkippedOnlyWhenTrivial(lockF, sortCall, sorted, a.ci.Instr)) {
 				okR1, why = false, "an acquisition is not dominated by the sort"
 			}
 			// the mutex comes from get(row.Name) with row an element of the sorted slice at an ascending index
-			mu := a.Recv()
-			call, isCall := mu.(*ssa.Call)
-			if !isCall || call.Call.StaticCallee() != getF {
-				okR1, why = false, "the acquired mutex is not the result of get(name)"
-				continue
-			}
+			call := a.get
 			nameArg := call.Call.Args[len(call.Call.Args)-1]
 			from := elementSource(nameArg)
 			if from == nil {
@@ -152,7 +278,7 @@ func rulesC15(c *Ctx) {
 				return
 			}
 			if ia := elementAddr(st.Addr); ia != nil && (ia.X == sorted || keyP(ia.X) == keyP(sorted)) {
-				if reachableFrom(sortCall.Instr, st) {
+				if reachableFrom(sortAt, st) {
 					okR1, why = false, "a row is written after the sort"
 				}
 			}
@@ -191,27 +317,39 @@ func rulesC15(c *Ctx) {
 	// ---- R3 mode mapping and symmetry -----------------------------------------------------
 	n3 := 0
 	for _, f := range []*ssa.Function{lockF, unlockF} {
-		facts := factsFor(f)
-		for _, ci := range Calls(f) {
-			op := syncOp(ci)
-			if op == nil || ci.Kind != "call" {
-				continue
-			}
+		for _, site := range mutexSites(f, getF) {
 			// only the per-resource mutexes (results of get), not the table lock
-			if call, ok := ci.Recv().(*ssa.Call); !ok || call.Call.StaticCallee() != getF {
-				continue
+			inF := f
+			if site.helper != nil {
+				inF = site.helper
 			}
-			n3++
-			con := fmt.Sprintf("%s of a resource mutex in %s", ci.Static.Name(), fname(f))
-			val, known := knownFieldBool(facts, ci.Block, "Value")
-			if !known {
-				c.Bad("R3", con, ci.Pos(), "the requested mode of the row is not established at this call")
-				continue
+			facts := factsFor(inF)
+			for _, ci := range site.ops {
+				op := syncOp(ci)
+				n3++
+				con := fmt.Sprintf("%s of a resource mutex in %s", ci.Static.Name(), fname(inF))
+				if site.helper != nil {
+					con += " (called from " + fname(f) + ")"
+					// the row whose mode the helper tests is the row whose name selected the mutex
+					if site.rowArg == nil || !sameElement(site.rowArg, site.get.Call.Args[len(site.get.Call.Args)-1]) {
+						c.Bad("R3", con, site.ci.Pos(), "the helper is not handed the row whose name selected the mutex — the mode of another row decides how this mutex is taken")
+						continue
+					}
+					if (f == lockF) != op.Acquire {
+						c.Bad("R3", con, ci.Pos(), "the helper called here "+map[bool]string{true: "releases", false: "acquires"}[f == lockF]+" the mutex")
+						continue
+					}
+				}
+				val, known := knownFieldBool(facts, ci.Block, "Value")
+				if !known {
+					c.Bad("R3", con, ci.Pos(), "the requested mode of the row is not established at this call")
+					continue
+				}
+				wantRead := val == lockR
+				isRead := op.Mode == 'R'
+				c.Check(wantRead == isRead, "R3", con, ci.Pos(), fmt.Sprintf("row mode %v (%s) -> %s", val, map[bool]string{true: "LockR", false: "LockRW"}[wantRead], ci.Static.Name()),
+					fmt.Sprintf("a row marked %s is handled with %s — writers do not exclude readers (or a read lock is released as a write lock: fatal error)", map[bool]string{true: "read (LockR)", false: "write (LockRW)"}[wantRead], ci.Static.Name()))
 			}
-			wantRead := val == lockR
-			isRead := op.Mode == 'R'
-			c.Check(wantRead == isRead, "R3", con, ci.Pos(), fmt.Sprintf("row mode %v (%s) -> %s", val, map[bool]string{true: "LockR", false: "LockRW"}[wantRead], ci.Static.Name()),
-				fmt.Sprintf("a row marked %s is handled with %s — writers do not exclude readers (or a read lock is released as a write lock: fatal error)", map[bool]string{true: "read (LockR)", false: "write (LockRW)"}[wantRead], ci.Static.Name()))
 		}
 	}
 	c.Floor("R3", n3, 4)
